@@ -148,4 +148,128 @@ theorem C12_len_special_nonvacuous :
     balanced "'e{x} y".toList = true ∧ maxDepth 1 "'e{x} y".toList ≤ maxLevel ∧
       bibtexLen (['{', '\\'] ++ "'e{x} y".toList ++ ['}'] ++ "{c d}e".toList) = some 5 := by decide
 
+/-! ### text prefix -/
+
+/-- the text prefix of `n ≥ 0` characters has text length `min n (text length of s)` -/
+theorem C12_prefix_len (s p : Str) (n : Int) (m : Nat) (hn : 0 ≤ n)
+    (hp : bibtexPrefix s n = some p) (hm : bibtexLen s = some m) :
+    bibtexLen p = some (min n.toNat m) := by
+  unfold bibtexPrefix at hp
+  split at hp
+  · cases hp
+    have : n.toNat = 0 := by omega
+    rw [this]; simp; decide
+  · rename_i hpos
+    obtain ⟨toks, ht, rfl⟩ := Option.map_eq_some_iff.1 hp
+    rw [bibtexLen_eq, ht] at hm
+    simp only [Option.map_some, Option.some.injEq] at hm
+    obtain ⟨toks', h1, h2⟩ := scanM_prefix n _ _ _ ht 0 (by omega)
+    rw [prefixAux_zero_eq_go, bibtexLen_eq, scan, h1]
+    simp only [Option.map_some, Option.some.injEq, h2, hm]
+    simp
+
+theorem C12_prefix_len_nonvacuous :
+    bibtexPrefix ex1 4 = some "ab{\\'e x}{c}".toList ∧ bibtexLen ex1 = some 7 ∧
+      bibtexLen "ab{\\'e x}{c}".toList = some 4 := by decide
+
+/-- nothing for a count ≤ 0 -/
+theorem C12_prefix_nonpos (s : Str) (n : Int) (hn : n ≤ 0) : bibtexPrefix s n = some [] := by
+  simp [bibtexPrefix, hn]
+
+theorem C12_prefix_nonpos_nonvacuous : bibtexPrefix ex1 (-3) = some [] := by decide
+
+/-- The text prefix is a prefix `q` of the string followed by closing braces; when every special
+character of the string is closed there are exactly as many of them as braces are open at the
+end of `q` (otherwise `q` may include the `}` the scanner appends after the unclosed special
+character). -/
+theorem C12_prefix_is_prefix (s p : Str) (n : Int) (hp : bibtexPrefix s n = some p) :
+    ∃ q k, p = q ++ List.replicate k '}' ∧
+      (if specialsClosed s = true then q <+: s ∧ k = depthSat 0 q else q <+: s ++ ['}']) := by
+  unfold bibtexPrefix at hp
+  split at hp
+  · cases hp
+    refine ⟨[], 0, rfl, ?_⟩
+    split
+    · exact ⟨List.nil_prefix, rfl⟩
+    · exact List.nil_prefix
+  · obtain ⟨toks, ht, rfl⟩ := Option.map_eq_some_iff.1 hp
+    rw [prefixAux_zero_eq_go]
+    obtain ⟨pre, post, h1, h2⟩ := prefixGo_shape n toks 0 0
+    refine ⟨tokText pre, lastLvl 0 pre, h2, ?_⟩
+    have htxt := scanM_text _ _ _ ht
+    simp only [ScanMode.acc, ScanMode.sp, ScanMode.depth, List.nil_append] at htxt
+    have hpre : tokText pre <+: tokText toks := by rw [h1, tokText_append]; exact List.prefix_append _ _
+    rw [htxt] at hpre
+    split
+    · rename_i hs
+      have hsp : endsInSpecial false 0 s = false := by simpa [specialsClosed] using hs
+      rw [hsp] at hpre
+      refine ⟨by simpa [closeIf] using hpre, ?_⟩
+      have hc : SatChain 0 toks := scanM_sat _ _ _ ht hsp
+      rw [h1] at hc
+      exact hc.left.depth.symm
+    · rename_i hs
+      have hsp : endsInSpecial false 0 s = true := by simpa [specialsClosed] using hs
+      rw [hsp] at hpre
+      exact hpre
+
+theorem C12_prefix_is_prefix_nonvacuous :
+    bibtexPrefix ex1 5 = some ("ab{\\'e x}{c " ++ "}").toList ∧ specialsClosed ex1 = true ∧
+      "ab{\\'e x}{c ".toList <+: ex1 ∧ depthSat 0 "ab{\\'e x}{c ".toList = 1 := by decide
+
+/-- where the brace depth never goes negative, the saturating depth `depthSat` used above is the
+brace depth -/
+theorem C12_depthSat_depthAfter (q : Str) (e : Nat) (h : depthAfter 0 q = some e) : depthSat 0 q = e :=
+  depthSat_of_depthAfter q 0 e h
+
+/-! ### purify -/
+
+/-- every character of a purified string is an (ASCII) letter, a digit or a space -/
+theorem C12_purify_range (s p : Str) (h : bibtexPurify s = some p) :
+    ∀ c ∈ p, isAlnum c = true ∨ c = ' ' := by
+  obtain ⟨toks, _, rfl⟩ := Option.map_eq_some_iff.1 h
+  intro c hc
+  obtain ⟨l, hl, hcl⟩ := List.mem_flatten.1 hc
+  obtain ⟨t, _, rfl⟩ := List.mem_map.1 hl
+  exact purifyTok_range t c hcl
+
+/-- purify is idempotent -/
+theorem C12_purify_idem (s p : Str) (h : bibtexPurify s = some p) : bibtexPurify p = some p :=
+  purify_fixed p (C12_purify_range s p h)
+
+theorem C12_purify_nonvacuous : bibtexPurify ex1 = some "abexc de".toList := by decide
+
+/-! ### case change -/
+
+/-- case change keeps the letters up to case (and every other character) when every special
+character is closed -/
+theorem C12_case_letters (s r : Str) (m : CaseMode) (hs : specialsClosed s = true)
+    (h : changeCase s m = some r) : lower r = lower s := by
+  obtain ⟨toks, ht, rfl⟩ := Option.map_eq_some_iff.1 h
+  rw [changeCaseAux_eq, lower_caseToks]
+  have := (C12_scan_lossless s toks ht).1 hs
+  simp only [tokText]; rw [this]
+
+/-- case change preserves the length when every special character is closed -/
+theorem C12_case_len_partial (s r : Str) (m : CaseMode) (hs : specialsClosed s = true)
+    (h : changeCase s m = some r) : r.length = s.length :=
+  length_eq_of_lower_eq (C12_case_letters s r m hs h)
+
+theorem C12_case_len_partial_nonvacuous :
+    specialsClosed ex1 = true ∧ changeCase ex1 .u = some "AB{\\'e X}{c d}E".toList := by decide
+
+/-- the hypothesis is needed: after an unclosed special character the result is one character
+longer (and has one more non-letter) than the input -/
+theorem C12_case_len_neg :
+    ¬ ∀ (s r : Str) (m : CaseMode), changeCase s m = some r → r.length = s.length := by
+  intro h
+  have := h ['{', '\\'] _ .l rfl
+  revert this; decide
+
+theorem C12_case_letters_neg :
+    ¬ ∀ (s r : Str) (m : CaseMode), changeCase s m = some r → lower r = lower s := by
+  intro h
+  have := h ['{', '\\'] _ .l rfl
+  revert this; decide
+
 end Pybtex.Props
